@@ -77,5 +77,5 @@ func TestVerifNetImageBox(t *testing.T) {
 	}
 	fw.close()
 	pw.close()
-	fmt.Printf("SUMMARY {\"flows\":%d,\"probes\":%d,\"dns_queries\":%d}\n", fw.n, pw.n, vnetQueries)
+	fmt.Printf("SUMMARY {\"flows\":%d,\"probes\":%d,\"dns_queries\":%d,\"dns_rebinds\":%d}\n", fw.n, pw.n, vnetQueries, vnetRebinds)
 }
